@@ -523,6 +523,16 @@ def handle (st : DState) (line : String) : String × DState :=
        | .ok (o, evs, _) => ("res=ok ev=" ++ listOrDash evs ++ " st=" ++ stateStr o, { st with w := { st.w with orb := o } })
        | .err t => ("res=err ev=- st=" ++ stateStr st.w.orb ++ " tag=" ++ t, st)
        | .panic s => ("res=panic ev=- st=" ++ stateStr st.w.orb ++ " tag=" ++ s, st))
+  | ["escrowfund", ch, d, n] =>
+    -- coins of a further native denomination escrowed on a channel, with ICS-20's total-escrow bookkeeping
+    (match unhxS ch, unhxS d, parseNat n with
+     | some ch, some d, some n =>
+       if n == 0 then ("bad-op", st) else
+       let w := st.w
+       let bank := w.bank.mint (escrowSym "transfer" ch) d n
+       let ext := { w.ext with totalEscrow := fun x => if x = d then w.ext.totalEscrow d + n else w.ext.totalEscrow x }
+       ("ok", { st with w := { w with bank := bank, ext := ext } })
+     | _, _, _ => ("bad-op", st))
   | ["drybegin"] => if st.saved.isSome then ("bad-op", st) else ("ok", { st with saved := some st.w })
   | ["dryend"] => (match st.saved with | some w => ("ok", { st with w := w, saved := none }) | none => ("bad-op", st))
   | "msgdry" :: rest =>
@@ -593,6 +603,8 @@ def handle (st : DState) (line : String) : String × DState :=
     (match parseQuery rest with
      | none =>
        (match rest with
+        | ["ActionIDs"] => ("res=ok out=[" ++ joinWith "," ((Gen.actionIds.filter (·.1 != 0)).map fun e => intToDec e.1 ++ ":" ++ e.2) ++ "]", st)
+        | ["ProtocolIDs"] => ("res=ok out=[" ++ joinWith "," ((Gen.protocolIds.filter (·.1 != 0)).map fun e => intToDec e.1 ++ ":" ++ e.2) ++ "]", st)
         | ["Balance", a, d] => (match unhxB a, unhxS d with
             | some a, some d => ("res=ok out=" ++ natToDec (st.w.bank.bal a d), st)
             | _, _ => ("bad-op", st))
